@@ -942,8 +942,9 @@ package zap
 //@   ensures O.ret2[0] != nil ==> #O == 1 && result.2 != nil && #CO == 0
 //@   ensures O.ret2[0] == nil ==> #O == 2 && O.arg0[1] == cfg.ErrorOutputPaths
 //@   ensures #O == 2 && O.ret2[1] != nil ==> result.2 != nil && #CO == 1
-//@   ensures #O == 2 && O.ret2[1] == nil ==> result.2 == nil && #CO == 0 && result.0 == O.ret0[0] && result.1 == O.ret0[1]
+//@   ensures #O == 2 && O.ret2[1] == nil ==> result.2 == nil && #CO == 0 && result.0 == O.ret0[0] && result.1 == O.ret0[1] && result.0 != nil && result.1 != nil
 //@   ensures result.2 != nil ==> result.0 == nil && result.1 == nil
+//@   ensures result.2 == nil ==> result.0 != nil && result.1 != nil
 
 // Build: every failure happens before the sinks are opened, except a failure of openSinks
 // itself (which has closed what it opened): once openSinks has succeeded Build succeeds.
@@ -958,6 +959,7 @@ package zap
 //@   flags nopanic
 //@   requires !held(&_encoderMutex)
 //@   modifies held(&_encoderMutex), $user
+//@   ensures result.1 == nil ==> result.0 != nil
 
 //@ func (zap.Config).buildOptions
 //@   props C19
@@ -1049,8 +1051,10 @@ package zap
 //@   ensures old(has(_encoderNameToConstructor, name)) ==> result != nil
 //@   ensures result == nil ==> has(_encoderNameToConstructor, name) && _encoderNameToConstructor[name] == constructor
 
+// A registered encoder constructor returns an encoder or an error (rely on registered constructors).
 //@ callback type:func(zapcore.EncoderConfig) (zapcore.Encoder, error)
 //@   modifies $user
+//@   ensures result.1 == nil ==> result.0 != nil
 
 //@ func zap.newEncoder
 //@   props C19 C09
@@ -1059,6 +1063,7 @@ package zap
 //@   ensures !held(&_encoderMutex)
 //@   ensures encoderConfig.TimeKey != "" && encoderConfig.EncodeTime == nil ==> result.1 != nil && result.0 == nil
 //@   ensures name == "" ==> result.1 != nil
+//@   ensures result.1 == nil ==> result.0 != nil
 //@   ensures !old(has(_encoderNameToConstructor, name)) ==> result.1 != nil && result.0 == nil
 
 // ---------------------------------------------------------------------------
